@@ -115,10 +115,18 @@ func (m *Media) Clone() *Media {
 }
 
 // ErrorLog records messages given to the util.ErrorLogger.
-type ErrorLog struct{ Messages []string }
+type ErrorLog struct {
+	Messages []string
+	Hook     func(msg string)
+}
 
 // Log implements util.ErrorLogger.
-func (l *ErrorLog) Log(err error) { l.Messages = append(l.Messages, err.Error()) }
+func (l *ErrorLog) Log(err error) {
+	l.Messages = append(l.Messages, err.Error())
+	if l.Hook != nil {
+		l.Hook(err.Error())
+	}
+}
 
 // VClock implements clock.Clock on the scheduler's virtual time.
 type VClock struct{}
